@@ -588,6 +588,11 @@ func exploreProtocol(run *h.Run, prefix string, pc ref.PConfig, alpha []ref.Cmd,
 			hist []int
 		}
 		var next []found
+		type candT struct {
+			hist   []int
+			closed bool
+		}
+		cand := map[string]candT{}
 		h.ParallelFor(len(jobs), func(i int) {
 			if i%64 == 0 && run.Expired() {
 				return
@@ -614,13 +619,20 @@ func exploreProtocol(run *h.Run, prefix string, pc ref.PConfig, alpha []ref.Cmd,
 				st.Closed++
 			}
 			if !seen[r.Key] {
-				seen[r.Key] = true
-				if !r.Closed {
-					next = append(next, found{r.Key, hist})
+				// the representative history of a new state is the lexicographically smallest one of this level,
+				// not the one whose worker happened to finish first: runs are reproducible
+				if old, ok := cand[r.Key]; !ok || lessHist(hist, old.hist) {
+					cand[r.Key] = candT{hist, r.Closed}
 				}
 			}
 			mu.Unlock()
 		})
+		for k, c := range cand {
+			seen[k] = true
+			if !c.closed {
+				next = append(next, found{k, c.hist})
+			}
+		}
 		// deterministic order of the next frontier (shortest, then lexicographic)
 		sort.Slice(next, func(a, b int) bool {
 			x, y := next[a].hist, next[b].hist
@@ -646,6 +658,18 @@ func exploreProtocol(run *h.Run, prefix string, pc ref.PConfig, alpha []ref.Cmd,
 		run.NotExhaustive(fmt.Sprintf("BFS stopped at depth %d with %d unexpanded states", st.MaxDepth, len(frontier)))
 	}
 	return st
+}
+
+func lessHist(x, y []int) bool {
+	for i := range x {
+		if i >= len(y) {
+			return false
+		}
+		if x[i] != y[i] {
+			return x[i] < y[i]
+		}
+	}
+	return len(x) < len(y)
 }
 
 type bfsCase struct {
